@@ -1,0 +1,254 @@
+//go:build verif
+// +build verif
+
+package cmd
+
+import (
+	"context"
+	"fmt"
+	"io/ioutil"
+	"math"
+	"os"
+	"path/filepath"
+	"sort"
+	"strings"
+	"time"
+
+	"github.com/knz/shakespeare/pkg/crdb/log"
+	"github.com/knz/shakespeare/pkg/crdb/stop"
+)
+
+// VerifAuditLoop is VerifAudition driven through the REAL audit loop
+// ((*audition).audit, including its initial round, its event dispatch and its
+// deferred final round) instead of calling checkEvent / checkFinal directly.
+//
+// The loop runs in its own goroutine and receives the events one at a time on
+// an unbuffered channel: the send of event i+1 is accepted only when the loop
+// is back at its select, i.e. when event i has been processed completely, so
+// the outputs drained at that point are exactly those of event i (and the
+// first drain, before event 0 is accepted, those of the initial round).  A
+// "final" event closes the history: the epoch is moved so that the wall-clock
+// `elapsed` of checkFinal lands at its Ts, and terminate{} is sent, as the
+// spotlight supervisor does at the end of a play.  If the loop returns early
+// (an evaluation error), the remaining events are skipped; the deferred final
+// round has then already run at an arbitrary instant.
+func VerifAuditLoop(cfgText string, events []VerifEvent, earlyExit bool) (res VerifAuditionResult) {
+	res.EarlyExitAt = -1
+	defer func() {
+		if r := recover(); r != nil {
+			res.Panic = fmt.Sprintf("%v", r)
+		}
+	}()
+	cfg, err := verifParseString(cfgText, nil)
+	if err != nil {
+		res.ParseErr = err.Error()
+		return res
+	}
+	cfg.earlyExit = earlyExit
+	ctx := context.Background()
+	stopper := stop.NewStopper()
+	defer stopper.Stop(ctx)
+	tmp, err := ioutil.TempDir("", "shk-verif-audloop")
+	if err != nil {
+		panic(err)
+	}
+	defer os.RemoveAll(tmp)
+	cfg.dataDir = tmp
+	if err := os.MkdirAll(filepath.Join(tmp, "csv"), 0755); err != nil {
+		panic(err)
+	}
+	collCh := make(chan collectorEvent, 65536)
+	eventCh := make(chan auditableEvent)
+	rep := &verifReporter{start: time.Now(), min: math.Inf(1), max: math.Inf(-1)}
+	au := &audition{
+		r:       rep,
+		cfg:     cfg,
+		stopper: stopper,
+		logger:  log.NewSecondaryLogger(ctx, nil, "audit", true, false),
+		res:     &auditionResults{},
+		st:      makeAuditionState(cfg),
+		eventCh: eventCh,
+		collCh:  collCh,
+	}
+	col := &collector{
+		r:       rep,
+		cfg:     cfg,
+		stopper: stopper,
+		st:      makeCollectorState(cfg),
+		logger:  log.NewSecondaryLogger(ctx, nil, "collector", true, false),
+	}
+	of := newOutputFiles()
+
+	for _, n := range cfg.audienceNames {
+		if _, ok := au.st.auditorStates[n]; ok {
+			res.Members = append(res.Members, n)
+		}
+	}
+	res.Watchers = make(map[string][]string)
+	for vn, v := range cfg.vars {
+		ws := append([]string(nil), v.watcherNames...)
+		sort.Strings(ws)
+		res.Watchers[vn.String()] = ws
+		if v.isArray {
+			res.ArrayVars = append(res.ArrayVars, vn.String())
+		}
+	}
+	sort.Strings(res.ArrayVars)
+
+	stopped := false
+	terminated := false
+	drain := func(round int) {
+		for {
+			select {
+			case cev := <-collCh:
+				switch ev := cev.(type) {
+				case terminate:
+					terminated = true
+				case *auditionReport:
+					res.Outs = append(res.Outs, VerifOut{Round: round, Kind: "report", Auditor: ev.auditor,
+						Result: int(ev.result), Output: ev.output, Ts: ev.ts})
+					if !stopped {
+						early, err := col.collectAuditionReport(ctx, of, ev)
+						if err != nil {
+							res.AuditErr = "collector: " + err.Error()
+						}
+						if early {
+							stopped = true
+							res.EarlyExitAt = len(res.Outs) - 1
+						}
+					}
+				case *observation:
+					res.Outs = append(res.Outs, VerifOut{Round: round, Kind: "obs", Var: ev.varName.String(),
+						Val: ev.val, Typ: int(ev.typ), Ts: ev.ts})
+					if !stopped {
+						if err := col.collectObservation(ctx, of, ev); err != nil {
+							res.AuditErr = "collector: " + err.Error()
+						}
+					}
+				}
+				continue
+			default:
+			}
+			break
+		}
+		for _, j := range rep.judged {
+			res.Outs = append(res.Outs, VerifOut{Round: round, Kind: "judge", Text: j})
+		}
+		rep.judged = nil
+	}
+
+	// checkFinal computes `elapsed` from the wall clock and the reporter's
+	// epoch (the only use of the epoch in the audition): keep the epoch such
+	// that a final round started now lands at the history's final time stamp,
+	// also when the loop returns early and runs its deferred final round.
+	finalTs := 0.0
+	for _, e := range events {
+		if e.Ts > finalTs {
+			finalTs = e.Ts
+		}
+	}
+	setEpoch := func() { rep.start = time.Now().Add(-time.Duration(finalTs * float64(time.Second))) }
+	setEpoch()
+	done := make(chan error, 1)
+	go func() {
+		defer func() {
+			if r := recover(); r != nil {
+				done <- fmt.Errorf("panic: %v", r)
+			}
+		}()
+		done <- au.audit(ctx)
+	}()
+	finished := false
+	finish := func(err error) {
+		finished = true
+		if err != nil {
+			if strings.HasPrefix(err.Error(), "panic: ") {
+				res.Panic = err.Error()
+			} else {
+				res.AuditErr = err.Error()
+			}
+		}
+	}
+	// send blocks until the loop has finished the previous event
+	send := func(ev auditableEvent) bool {
+		setEpoch()
+		select {
+		case eventCh <- ev:
+			return true
+		case err := <-done:
+			finish(err)
+			return false
+		case <-time.After(20 * time.Second):
+			res.Panic = "audit loop stuck"
+			finished = true
+			return false
+		}
+	}
+	prev := -1
+	for i, e := range events {
+		if finished {
+			break
+		}
+		var aev auditableEvent
+		switch e.Kind {
+		case "mood":
+			aev = &moodChange{ts: e.Ts, newMood: e.Mood}
+		case "act":
+			aev = &actChange{ts: e.Ts, actNum: int(e.Ts)}
+		case "sig":
+			ev := &sigEvent{ts: e.Ts}
+			for _, v := range e.Values {
+				vn := varName{actorName: v.Actor, sigName: v.Sig}
+				var val interface{} = v.Str
+				typ := sigTypEvent
+				if v.IsNum {
+					val = v.Num
+					typ = sigTypScalar
+				}
+				ev.values = append(ev.values, auditableValue{typ: typ, varName: vn, val: val})
+			}
+			aev = ev
+		case "final":
+			// wait for the previous event to be finished, then end the play
+			if send(terminate{}) {
+				drain(prev)
+				err := <-done
+				finish(err)
+			}
+			prev = i
+			continue
+		}
+		if !send(aev) {
+			break
+		}
+		drain(prev) // the outputs of the previous event (or of the initial round)
+		prev = i
+	}
+	if !finished {
+		// history without a final event: end the play now
+		if send(terminate{}) {
+			drain(prev)
+			finish(<-done)
+		}
+	}
+	// whatever is left belongs to the last step (the final round, or the
+	// deferred final round after an early return)
+	drain(prev)
+	_ = terminated
+	of.CloseAll()
+	res.Vals = make(map[string]string)
+	for k, v := range au.st.curVals {
+		res.Vals[k] = fmt.Sprintf("%v", v)
+	}
+	if verr := col.checkAuditViolations(ctx); verr != nil {
+		res.Verdict = verr.Error()
+	}
+	res.GoodCounts = col.st.goodCounts
+	res.BadCounts = col.st.badCounts
+	res.Errors = len(col.st.errors)
+	res.HasData = make(map[string]bool)
+	for _, n := range cfg.audienceNames {
+		res.HasData[n] = cfg.audience[n].auditor.hasData
+	}
+	return res
+}
